@@ -235,6 +235,7 @@ pub fn short_exp(e: &ExpErr) -> String {
         ExpErr::Code(c) => format!("{}", c).replace('-', "m"),
         ExpErr::CommandClass => "command_error".into(),
         ExpErr::ExecClass => "execution_error".into(),
+        ExpErr::Either(a, b) => format!("{}_or_{}", short_exp(a), short_exp(b)),
     }
 }
 
